@@ -1386,6 +1386,12 @@ func (in *inliner) methodValues(e ast.Expr, within *types.Func) (ast.Expr, bool)
 		}
 		id, isID := unparen(sel.X).(*ast.Ident)
 		if !isID {
+			// T{f: v, …}.m (or (&T{…}).m): the receiver is a fresh value known field by field; the body may only read those fields,
+			// and each given value denotes the same thing whenever it is evaluated (&local, a constant, a variable assigned once)
+			if lit := in.litMethodValue(sel, fd, sig, wfd); lit != nil {
+				repl[sel] = lit
+				in.count++
+			}
 			continue
 		}
 		rv, isV := in.info.Uses[id].(*types.Var)
@@ -1442,6 +1448,121 @@ func (in *inliner) methodValues(e ast.Expr, within *types.Func) (ast.Expr, bool)
 	cp := &copier{info: in.info, subst: map[types.Object]ast.Expr{}}
 	cp.onSelector = func(s *ast.SelectorExpr) ast.Expr { return repl[s] }
 	return cp.node(e).(ast.Expr), true
+}
+
+// litMethodValue builds the closure for T{f: v}.m: m's body with recv.f replaced by v.
+func (in *inliner) litMethodValue(sel *ast.SelectorExpr, fd *ast.FuncDecl, sig *types.Signature, wfd *ast.FuncDecl) *ast.FuncLit {
+	x := unparen(sel.X)
+	if u, isU := x.(*ast.UnaryExpr); isU && u.Op == token.AND {
+		x = unparen(u.X)
+	}
+	cl, isCL := x.(*ast.CompositeLit)
+	if !isCL || sig.Recv() == nil {
+		return nil
+	}
+	recv := sig.Recv()
+	if assignedIn(in.info, fd.Body, recv) {
+		return nil
+	}
+	vals := map[string]ast.Expr{}
+	for _, el := range cl.Elts {
+		kv, isKV := el.(*ast.KeyValueExpr)
+		if !isKV {
+			return nil
+		}
+		k, isID := kv.Key.(*ast.Ident)
+		if !isID {
+			return nil
+		}
+		v := unparen(kv.Value)
+		stable := false
+		if tv, has := in.info.Types[v]; has && tv.Value != nil {
+			stable = true
+		}
+		inner := v
+		if u, isU := v.(*ast.UnaryExpr); isU && u.Op == token.AND {
+			if id, isID := unparen(u.X).(*ast.Ident); isID {
+				if lv, isV := in.info.Uses[id].(*types.Var); isV && !lv.IsField() {
+					stable = true // the address of a variable is the same each time
+				}
+			}
+			inner = nil
+		}
+		if id, isID := inner.(*ast.Ident); isID && !stable {
+			if lv, isV := in.info.Uses[id].(*types.Var); isV && !lv.IsField() {
+				n := 0
+				ast.Inspect(wfd.Body, func(m ast.Node) bool {
+					switch s := m.(type) {
+					case *ast.AssignStmt:
+						for _, l := range s.Lhs {
+							if sameVar(in.info, l, lv) {
+								n++
+							}
+						}
+					case *ast.IncDecStmt:
+						if sameVar(in.info, s.X, lv) {
+							n += 2
+						}
+					case *ast.UnaryExpr:
+						if s.Op == token.AND && sameVar(in.info, s.X, lv) {
+							n += 2
+						}
+					}
+					return true
+				})
+				stable = n <= 1
+			}
+		}
+		if !stable {
+			return nil
+		}
+		vals[k.Name] = kv.Value
+	}
+	// every use of the receiver in the body is recv.f with f given in the literal
+	okUse := true
+	selX := map[*ast.Ident]bool{}
+	ast.Inspect(fd.Body, func(m ast.Node) bool {
+		switch s := m.(type) {
+		case *ast.SelectorExpr:
+			if id, isID := s.X.(*ast.Ident); isID && in.info.Uses[id] == recv {
+				if _, has := vals[s.Sel.Name]; has && in.info.Selections[s] != nil && in.info.Selections[s].Kind() == types.FieldVal {
+					selX[id] = true
+				}
+			}
+		case *ast.Ident:
+			if in.info.Uses[s] == recv && !selX[s] {
+				okUse = false
+			}
+		}
+		return true
+	})
+	if !okUse {
+		return nil
+	}
+	var fields []*ast.Field
+	for i := 0; i < sig.Params().Len(); i++ {
+		p := sig.Params().At(i)
+		pid := &ast.Ident{NamePos: sel.Pos(), Name: p.Name()}
+		if p.Name() == "" {
+			pid.Name = "_"
+		}
+		in.info.Defs[pid] = p
+		fields = append(fields, &ast.Field{Names: []*ast.Ident{pid}, Type: typeExprPlaceholder(in.info, p.Type(), sel.Pos())})
+	}
+	cp := &copier{info: in.info, subst: map[types.Object]ast.Expr{}}
+	cp.onSelector = func(s *ast.SelectorExpr) ast.Expr {
+		if id, isID := s.X.(*ast.Ident); isID && in.info.Uses[id] == recv {
+			if v, has := vals[s.Sel.Name]; has {
+				inner := &copier{info: in.info, subst: map[types.Object]ast.Expr{}}
+				return &ast.ParenExpr{X: inner.node(v).(ast.Expr)}
+			}
+		}
+		return nil
+	}
+	lit := &ast.FuncLit{Type: &ast.FuncType{Func: sel.Pos(), Params: &ast.FieldList{List: fields}}, Body: cp.node(fd.Body).(*ast.BlockStmt)}
+	in.info.Types[lit] = types.TypeAndValue{Type: types.NewSignatureType(nil, nil, nil, sig.Params(), sig.Results(), false)}
+	in.litDone[lit] = true
+	return lit
 }
 
 func (in *inliner) exprCalls(e ast.Expr, within *types.Func) (ast.Expr, bool) {
